@@ -146,7 +146,7 @@ class InputFileRoundTrip(Contract):
     symbolic = False
     has_native = True
     props = ("C14",)
-    bounded_scope = "template forms (bool, integer, float incl. +-inf, string, choice, object, data, data-or-value, optional/disabled variants; in a scenario of their own: multi-choice, file, group, drillhole-group data with the template defaults and optional variants, range with and without complement; an enabled optional group with an opted-out optional member, flags compared before and after the values are read) x value corpus x {default options, update_enabled=False}; written, read back, values and enabled states compared; promote/demote of uids on a real workspace; file names with dots in the stem; values assigned to members of optional groups (switch optional or not, before or after its members); values changed through set_data_value or by assigning the data dictionary back (with and without validation; data-or-value forms switched between number and channel)"
+    bounded_scope = "template forms (bool, integer, float incl. +-inf, string, choice, object, data, data-or-value, optional/disabled variants; in a scenario of their own: multi-choice, file, group, drillhole-group data with the template defaults and optional variants, range with and without complement; an enabled optional group with an opted-out optional member, flags compared before and after the values are read; a parameter switched off and on again through its dependency (both dependency types); two optional groups in every combination of states) x value corpus x {default options, update_enabled=False}; written, read back, values and enabled states compared; promote/demote of uids on a real workspace; file names with dots in the stem; values assigned to members of optional groups (switch optional or not, before or after its members); values changed through set_data_value or by assigning the data dictionary back (with and without validation; data-or-value forms switched between number and channel)"
 
     def native_cases(self, tier, rng):
         for opts in ({}, {"update_enabled": False}):
@@ -158,6 +158,14 @@ class InputFileRoundTrip(Contract):
             for switch_first in (True, False):
                 for touch in ("data-then-flags", "flags-only"):
                     yield {"kind": "opted-out-member", "options": opts, "switch_first": switch_first, "touch": touch, "name": "optout.ui.json"}
+        # a parameter switched through its dependency (not optional itself), and two optional groups in different states
+        for dtype in ("enabled", "disabled"):
+            for how in ("data-setter", "in-place"):
+                if dtype == "enabled" and how == "data-setter":
+                    continue  # the validated setter refuses None for the (enabled, optional) switch itself: C15's subject
+                yield {"kind": "dependency", "dependency_type": dtype, "how": how, "name": "dep.ui.json"}
+        for states in ((True, False), (False, True), (False, False), (True, True)):
+            yield {"kind": "two-groups", "states": list(states), "name": "two groups.ui.json"}
         # the remaining template forms: multi-choice, file, group, drillhole-group data (template defaults and optional variants), range
         for opts in ({}, {"update_enabled": False}):
             for validate in (True, False):
@@ -365,6 +373,113 @@ class InputFileRoundTrip(Contract):
             shutil.rmtree(d, ignore_errors=True)
         return None
 
+    def _dependency(self, case):
+        from geoh5py.ui_json import InputFile, templates
+        from geoh5py.ui_json.constants import default_ui_json
+        from geoh5py.workspace import Workspace
+
+        d = tempfile.mkdtemp()
+        try:
+            with Workspace.create(os.path.join(d, "g.geoh5")) as ws:
+                ui = deepcopy(default_ui_json)
+                ui["geoh5"] = ws
+                ui["switch"] = templates.float_parameter(label="switch", value=2.0, optional="enabled")
+                ui["dependent"] = templates.float_parameter(label="dependent", value=5.0)
+                ui["dependent"].update({"dependency": "switch", "dependencyType": case["dependency_type"], "enabled": True})
+                ui["other"] = templates.integer_parameter(label="other", value=7)
+                ifile = InputFile(ui_json=ui)
+                # the dependent is switched off: with type "disabled" while the switch stays on, with type "enabled" together with it
+                new = {"dependent": None} if case["dependency_type"] == "disabled" else {"switch": None, "dependent": None}
+                if case["how"] == "data-setter":
+                    data = dict(ifile.data)
+                    data.update(new)
+                    ifile.data = data
+                else:
+                    for k, v in new.items():
+                        ifile.data[k] = v
+                want = {"switch": 2.0, "dependent": 5.0, "other": 7}
+                want.update(new)
+                out = ifile.write_ui_json(name=case["name"], path=d)
+            try:
+                back = InputFile.read_ui_json(out)
+            except Exception as exc:
+                return f"reading back the file that was just written fails: {type(exc).__name__}: {exc} ({case})"
+            try:
+                for k, v in want.items():
+                    if back.data[k] != v:
+                        return f"'{k}' (switched through its dependency): wrote {v!r}, read back {back.data[k]!r} with enabled={back.ui_json[k].get('enabled')} ({case})"
+                # and on again from the file that was read
+                back.data["switch"], back.data["dependent"] = 3.0, 6.0
+                out2 = back.write_ui_json(name="again " + case["name"], path=d)
+                again = InputFile.read_ui_json(out2)
+                try:
+                    for k, v in {"switch": 3.0, "dependent": 6.0, "other": 7}.items():
+                        if again.data[k] != v:
+                            return f"second cycle, '{k}': wrote {v!r}, read back {again.data[k]!r} ({case})"
+                finally:
+                    if again.geoh5 is not None:
+                        again.geoh5.close()
+            finally:
+                if back.geoh5 is not None:
+                    try:
+                        back.geoh5.close()
+                    except Exception:
+                        pass
+        finally:
+            shutil.rmtree(d, ignore_errors=True)
+        return None
+
+    def _two_groups(self, case):
+        from geoh5py.ui_json import InputFile, templates
+        from geoh5py.ui_json.constants import default_ui_json
+        from geoh5py.workspace import Workspace
+
+        d = tempfile.mkdtemp()
+        try:
+            with Workspace.create(os.path.join(d, "g.geoh5")) as ws:
+                ui = deepcopy(default_ui_json)
+                ui["geoh5"] = ws
+                want = {}
+                for gi, on in enumerate(case["states"]):
+                    gname = f"Group {gi}"
+                    sw = templates.bool_parameter(label=f"use {gi}", value=True)
+                    sw.update({"group": gname, "groupOptional": True, "enabled": on})
+                    ui[f"use{gi}"] = sw
+                    for mi, form in enumerate((templates.float_parameter(label="tolerance", value=0.5 + gi), templates.integer_parameter(label="count", value=3 + gi))):
+                        form.update({"group": gname, "enabled": on})
+                        ui[f"g{gi}m{mi}"] = form
+                        want[f"g{gi}m{mi}"] = (form["value"] if on else None)
+                    want[f"use{gi}"] = True if on else None
+                try:
+                    ifile = InputFile(ui_json=ui)
+                    live = {k: ifile.data[k] for k in want}
+                    if live != want:
+                        return f"the values of two optional groups in the states {case['states']} are {live}, expected {want} ({case})"
+                    out = ifile.write_ui_json(name=case["name"], path=d)
+                except Exception as exc:
+                    return f"a valid input file with two optional groups in the states {case['states']} is refused: {type(exc).__name__}: {exc} ({case})"
+            try:
+                back = InputFile.read_ui_json(out)
+            except Exception as exc:
+                return f"reading back the file that was just written fails: {type(exc).__name__}: {exc} ({case})"
+            try:
+                got = {k: back.data[k] for k in want}
+                if got != want:
+                    return f"two optional groups in the states {case['states']}: wrote {want}, read back {got} ({case})"
+                for gi, on in enumerate(case["states"]):
+                    for k in (f"use{gi}", f"g{gi}m0", f"g{gi}m1"):
+                        if bool(back.ui_json[k].get("enabled", True)) != on:
+                            return f"enabled state of '{k}' in group {gi}: {on} as written, {back.ui_json[k].get('enabled', True)} after reading back ({case})"
+            finally:
+                if back.geoh5 is not None:
+                    try:
+                        back.geoh5.close()
+                    except Exception:
+                        pass
+        finally:
+            shutil.rmtree(d, ignore_errors=True)
+        return None
+
     def _opted_out(self, case):
         from geoh5py.ui_json import InputFile, templates
         from geoh5py.ui_json.constants import default_ui_json
@@ -486,6 +601,10 @@ class InputFileRoundTrip(Contract):
             return self._more_forms(case)
         if case.get("kind") == "opted-out-member":
             return self._opted_out(case)
+        if case.get("kind") == "dependency":
+            return self._dependency(case)
+        if case.get("kind") == "two-groups":
+            return self._two_groups(case)
         from geoh5py.objects import Points
         from geoh5py.ui_json import InputFile, templates
         from geoh5py.ui_json.constants import default_ui_json
